@@ -21,6 +21,7 @@ type PState struct {
 	ValOK   bool // val == raw text of current token (modulo pending backslash)
 	KeyOK   bool
 	KeyDec  bool // key buffer holds decoded key of the current pair
+	NameDec bool // a string register (a local assigned the decoder's result) holds the decoded key of the current pair
 	Pending bool // spec: previous symbol was an escape backslash (not yet written)
 	InKeyP  bool
 	Events  string // events since the last delimiter
@@ -190,6 +191,12 @@ func (m *Machine) inclusion(isList bool) incResult {
 						} else {
 							wrote[a.Buf] = append(wrote[a.Buf], a.What)
 						}
+					case "KEYREG":
+						if a.Val != nil && a.Val.Kind == "STR" && a.Val.Buf == "key" {
+							np.NameDec = true
+						} else {
+							bad(ps, e, "the key register is assigned something other than the decoded key buffer")
+						}
 					case "USE":
 						// token buffer consumed by decoder/parseField: must be exact raw token
 						ok := (a.Buf == "val" && np.ValOK && !np.Pending) || (a.Buf == "key" && np.KeyOK && !np.InKeyP)
@@ -204,7 +211,7 @@ func (m *Machine) inclusion(isList bool) incResult {
 					case "EVENT":
 						desc := a.What + ":" + a.Val.Kind
 						if a.What == "Set" {
-							if a.Buf != "key" || !np.KeyDec {
+							if !(a.Buf == "key" && np.KeyDec) && !(a.Buf == "keyreg" && np.NameDec) {
 								bad(ps, e, "Set under a key buffer that does not hold the decoded key of this pair")
 							}
 						}
@@ -254,6 +261,7 @@ func (m *Machine) inclusion(isList bool) incResult {
 					if !(np.KeyOK) {
 						bad(ps, e, "key starts with a stale key buffer")
 					}
+					np.NameDec = false // a register still holding the previous pair's key does not name this pair
 				case "KEYCONTENT":
 					expectKey = []string{"char"}
 				case "KEYESC":
